@@ -27,6 +27,7 @@ def check(repo: Repo, rep, tier):
     no_source(repo, rep)
     apply_once(repo, rep)
     write_fresh(repo, rep)
+    nested_drop(repo, rep)
 
 
 SESSION_END = ("_get_changes", "_new_code")
@@ -464,7 +465,7 @@ def no_source(repo: Repo, rep):
     )
     f = repo.func("_change.py::apply_all")
     cfg = cfg_of(f)
-    loops = [n for n in cfg.live if n.kind == "for" and isinstance(n.ast.target, ast.Name) and "change" in n.ast.target.id]
+    loops = [n for n in cfg.live if n.kind == "for" and isinstance(n.ast.target, ast.Name) and isinstance(n.ast.iter, ast.Name) and n.ast.iter.id == f.params[0]]
     if not loops:
         rep.undecided("R-NO-SOURCE", "loop over the changes not found in apply_all")
         return
@@ -630,7 +631,73 @@ def write_fresh(repo: Repo, rep):
                     if any(t.key == "_change.py::apply_all" for t in cg.call_targets(f, cc)[0]) and len(cc.args) >= 2 and isinstance(cc.args[1], ast.Name) and cc.args[1].id == r:
                         if set(reaching_defs(cfg, m, r)) & set(ds) and n in reach(cfg, [m]):
                             feeds.append(cc)
-            if len(feeds) == 1:
+            if len(feeds) == 1 and not isinstance(feeds[0].args[0], (ast.Name, ast.ListComp, ast.GeneratorExp)):
+                rep.violation("R-WRITE-FRESH", f, c, f"the recorder written by {f.qualname} is fed with `{short(feeds[0].args[0], 40)}` - a preview mixture, not the list of changes selected for writing", construct="feed-expr")
+            elif len(feeds) == 1:
                 rep.ok("R-WRITE-FRESH", f, c, f"fresh recorder `{r}`, one apply_all")
             else:
                 rep.violation("R-WRITE-FRESH", f, c, f"the recorder written by {f.qualname} is fed by {len(feeds)} apply_all calls; the edits of one container must be merged in exactly one", construct=f"feeds:{len(feeds)}")
+
+
+def nested_drop(repo: Repo, rep):
+    rep.rule(
+        "R-NESTED-DROP",
+        "a nested snapshot() whose enclosing element/argument is replaced or deleted as a whole must not contribute edits of its own (they lie inside the "
+        "removed range and overlap): in apply_all every routing/application of a change is dominated by the false edge of a containment test - a call of a "
+        "package function that follows the node's `.parent` chain and tests membership in the set of nodes of the Replace/Delete changes",
+    )
+    cg = callgraph(repo)
+    f = repo.func("_change.py::apply_all")
+    cfg = cfg_of(f)
+    loops = [n for n in cfg.live if n.kind == "for" and isinstance(n.ast.target, ast.Name) and isinstance(n.ast.iter, ast.Name) and n.ast.iter.id == f.params[0]]
+    if not loops:
+        rep.undecided("R-NESTED-DROP", "routing loop not found")
+        return
+    lp = loops[0]
+    v = lp.ast.target.id
+
+    def is_containment(g) -> bool:
+        follows_parent = any(isinstance(x, ast.Attribute) and x.attr == "parent" for x in body_nodes(g.node)) or any(isinstance(x, ast.Call) and norm(x.func) == "getattr" and len(x.args) >= 2 and isinstance(x.args[1], ast.Constant) and x.args[1].value == "parent" for x in body_nodes(g.node))
+        loops_ = any(isinstance(x, (ast.While, ast.For)) for x in body_nodes(g.node))
+        member = any(isinstance(x, ast.Compare) and any(isinstance(o, ast.In) for o in x.ops) for x in body_nodes(g.node))
+        return follows_parent and loops_ and member
+
+    guards = []
+    for c in cfg.conds():
+        e = c.ast
+        if isinstance(e, ast.Call) and e.args and norm(e.args[0]) == f"{v}.node":
+            tg, _ = cg.call_targets(f, e)
+            if any(is_containment(t) for t in tg):
+                # the set handed over is built from the Replace/Delete changes
+                ok_set = False
+                if len(e.args) > 1 and isinstance(e.args[1], ast.Name):
+                    for d in reaching_defs(cfg, c, e.args[1].id):
+                        dv = def_value(d, e.args[1].id)
+                        if dv is not None and "Replace" in norm(dv) and "Delete" in norm(dv) and ".node" in norm(dv):
+                            ok_set = True
+                if ok_set:
+                    guards.append((c, "F"))
+    from ..cfg import edges_dominate
+
+    body = reach(cfg, [b for b, l in lp.succ if l == "iter"], blocked_nodes=[lp])
+    n_use = 0
+    bad = False
+    for nd in body:
+        if nd.kind != "stmt":
+            continue
+        uses = [x for x in ast.walk(nd.ast) if isinstance(x, ast.Attribute) and isinstance(x.value, ast.Name) and x.value.id == v and x.attr in ("apply",)] + [x for x in ast.walk(nd.ast) if isinstance(x, ast.Subscript) and "by_parent" in norm(x.value)]
+        if not uses:
+            continue
+        n_use += 1
+        if not (guards and edges_dominate(cfg, guards, nd)):
+            bad = True
+            rep.violation(
+                "R-NESTED-DROP",
+                f,
+                nd.ast,
+                f"apply_all applies `{short(nd.ast, 40)}` without checking that the change does not lie inside a node that is replaced or deleted as a whole: `assert 3 == snapshot([snapshot(2 + 3)])` + fix,update produces overlapping replacements (AssertionError at session end)",
+                construct=norm(nd.ast)[:60],
+            )
+    if not bad and n_use:
+        rep.ok("R-NESTED-DROP", f, lp.ast, f"{n_use} routing/application sites behind the containment test")
+    rep.floor("R-NESTED-DROP", "routing/application sites", n_use, 2)
